@@ -34,15 +34,16 @@ MISSING_MOD = 'verif_missing_resolver_mod'
 def strategy(tier):
     writer = st.fixed_dictionaries({
         'inc': st.integers(0, 5),
-        'sets': st.lists(st.tuples(st.sampled_from(REFKEYS), st.integers(0, 2)), max_size=3).map(lambda l: [list(x) for x in l]),
+        'sets': st.lists(st.tuples(st.sampled_from(REFKEYS), st.integers(0, 5)), max_size=3).map(lambda l: [list(x) for x in l]),
         'minimize': st.booleans(),
     })
     return st.fixed_dictionaries({
         'kind': st.sampled_from(['fs', 'fs', 'demo', 'demo-base']),
         'variant': st.sampled_from(VARIANTS),
-        'init': st.lists(st.tuples(st.sampled_from(REFKEYS), st.integers(0, 2)), max_size=4).map(lambda l: [list(x) for x in l]),
+        'init': st.lists(st.tuples(st.sampled_from(REFKEYS), st.integers(0, 5)), max_size=4).map(lambda l: [list(x) for x in l]),
         'writers': st.lists(writer, min_size=2, max_size=4),
         'poison': st.booleans(),
+        'undo': st.integers(0, 3),
     })
 
 
@@ -59,6 +60,17 @@ def install_missing():
     mod.GoneCounter = GoneCounter
     sys.modules[MISSING_MOD] = mod
     return GoneCounter
+
+
+def target_name(key, ti):
+    """which target a reference key points to: weak and nested references share the targets of the
+    strong formats (so one state can hold a weak and a strong reference to the same object)"""
+    fmt = key.split('_')[1]
+    if fmt == 'w':
+        return 't_%s%d' % (('oc', 'o')[ti % 2], ti % 3)
+    if fmt == 'nest':
+        return 't_oc%d' % (ti % 3)
+    return 't_%s%d' % (fmt, ti % 3)
 
 
 def ref_value(key, target):
@@ -119,7 +131,7 @@ def execute(case):
         def populate(root, root2):
             targets = {}
             for i in range(3):
-                for fmt, cls in (('oc', Node), ('o', NodeNA), ('w', Node), ('nest', Node)):
+                for fmt, cls in (('oc', Node), ('o', NodeNA)):
                     t = cls('na') if cls is NodeNA else cls()
                     t.name = 't_%s%d' % (fmt, i)
                     root[t.name] = t
@@ -132,8 +144,7 @@ def execute(case):
             obj = klass()
             obj.n = 0
             for key, ti in case['init']:
-                fmt = key.split('_')[1]
-                setattr(obj, key, ref_value(key, targets['t_%s%d' % (fmt, ti)]))
+                setattr(obj, key, ref_value(key, targets[target_name(key, ti)]))
             root['obj'] = obj
             other = vclasses.NoResolver()
             other.n = 0
@@ -240,11 +251,13 @@ def execute(case):
             for key, ti in wspec['sets']:
                 fmt = key.split('_')[1]
                 pool = cw.get_connection('two').root() if fmt == 'x' else cw.root()
-                setattr(o, key, ref_value(key, pool['t_%s%d' % (fmt, ti)]))
+                setattr(o, key, ref_value(key, pool[target_name(key, ti)]))
             o._p_changed = True
         committed_model = dict(old_model)
         first = True
         nt = False
+        states = [dict(old_model)]      # committed state after each successful commit
+        tids = [None]
         for wspec, tmw, cw, o in ws:
             new_model = model_of(cw)
             if wspec['minimize']:
@@ -263,6 +276,8 @@ def execute(case):
                     out.fail((PROPERTY, 'first-writer', 'conflict'), 'the first writer cannot conflict')
                     break
                 committed_model = new_model
+                states.append(dict(new_model))
+                tids.append(db.storage.lastTransaction())
                 first = False
                 continue
             if variant != 'RCounter':
@@ -323,9 +338,58 @@ def execute(case):
             if any(isinstance(v, tuple) for v in merged.values()) and old_model != committed_model != new_model:
                 nt = True
             committed_model = merged
+            states.append(dict(merged))
+            tids.append(db.storage.lastTransaction())
         for wspec, tmw, cw, o in ws:
             tmw.abort()
             cw.close()
+        # ---- the undo path: undoing a transaction that is not the object's latest change resolves with
+        # (state the undone transaction wrote, state now committed, state before the undone transaction)
+        if variant == 'RCounter' and kind == 'fs' and not out.failures and len(states) >= 3 and case.get('undo'):
+            import base64
+            j = 1 + (case['undo'] - 1) % (len(states) - 2)        # states[0] = initial; undo writer j (not the last)
+            tid_j = tids[j]
+            undone, pre, current = states[j], states[j - 1], states[-1]
+            del vclasses.RESOLVE_LOG[:]
+            tmu = transaction.TransactionManager()
+            out.evals += 1
+            from ZODB.POSException import UndoError
+            try:
+                db.undo(base64.encodebytes(tid_j).rstrip(), tmu.get())
+                tmu.commit()
+                okay = True
+            except UndoError:
+                tmu.abort()
+                okay = False
+            if undone == current and False:
+                pass
+            if not okay:
+                out.fail((PROPERTY, 'undo-resolution', 'refused'), 'undo of a resolvable intermediate change was refused')
+            elif len(vclasses.RESOLVE_LOG) != 1:
+                out.fail((PROPERTY, 'undo-resolution', 'resolver-call-count'), 'resolver called %d times during undo' % len(vclasses.RESOLVE_LOG))
+            else:
+                a_old, a_com, a_new = [canon_state(s_, nm_pr) for s_ in vclasses.RESOLVE_LOG[0]]
+                for label, got, exp in (('old', a_old, undone), ('committed', a_com, current), ('new', a_new, pre)):
+                    if got != exp:
+                        out.fail((PROPERTY, 'undo-resolution', 'wrong-argument', label),
+                                 'undo: the resolver got as %s state %r ; the model says %r' % (label, got, exp))
+                        break
+                if not out.failures:
+                    merged = dict(pre)
+                    merged['n'] = current['n'] + pre['n'] - undone['n']
+                    for k2, v in current.items():
+                        if k2.startswith('c_'):
+                            merged[k2] = v
+                    tmf = transaction.TransactionManager()
+                    cf = db.open(tmf)
+                    got = model_of(cf)
+                    tmf.abort()
+                    cf.close()
+                    if got != merged:
+                        out.fail((PROPERTY, 'undo-resolution', 'stored-state-differs'),
+                                 'after the undo a fresh connection loads %r ; the resolver returned %r' % (got, merged))
+                    else:
+                        out.label('undo-path-resolved')
         out.nontrivial = nt
         out.label(kind, variant)
     finally:
